@@ -146,6 +146,8 @@ def jobs(tier):
     js = [(unit_rt, (n,)) for n in names] + [(unit_struct, ())]
     js += D.g_leaf(("strict", "warn"), deep=0)  # alignment: the Needs of a field directly precede its event
     js += D.g_pump(("strict",))
+    # every walker consumes input only through its callees (the leaf in the end): no byte is taken without an event
+    js += D.g_arrays(("strict",)) + D.g_structs(("strict",)) + D.g_frames(("strict",)) + D.g_dispatch(("strict",))
     L0 = layout()
     types = [t for t in sorted(L0["structs"]) + sorted(L0["tpm2b"]) if t != "TPM2B_ENCRYPTED_PARAM"] + ["Command", "Response", "CommandResponseStream"]
     n = 10 if tier == "thorough" else 2
